@@ -1,20 +1,27 @@
 (* Property C07 — queries and transitions are pure: inputs and earlier results are never modified.
-   Statements only; proofs in Proofs/C07_Frame.v and Proofs/C07_Interleave.v; the model is Model/Store.v (an
-   ownership / footprint model: values are abstract, cells carry stamps; see the header of Model/Store.v).
+   Statements only; proofs in Proofs/C07_Frame.v, C07_Interleave.v, C07_Sep.v, C07_Threads.v; the model is
+   Model/Store.v (an ownership / footprint model: values are abstract, cells carry stamps; see its header).
 
    Full statement = frame (contents of every cell reachable from an input or an earlier result never change)
+                  + repeat (hence a repeated call sees the same cells with the same contents)
                   + separation (a value reaches only cells of its own region: no mutable state is shared between
-                    values) + repeat + interleave.
-   The model has one switch per repair (fix15, fix16, fix17, fix18).
-     - C07_frame, C07_repeat hold in every configuration with fix15, fix16, fix18 (the tree after the three
-       proposed repairs; D17 only aliases, it never writes);
+                    values)
+                  + interleave (threads sharing a domain see what they see alone, under ANY interleaving of the
+                    container-level events of their calls).
+   The model has one switch per repair (fix15, fix16, fix17, fix18); the tree as it stands is
+   (true, true, FALSE, true): D15, D16, D18 repaired, D17 open.
+     - C07_frame, C07_frame_reach, C07_repeat, C07_writes_private, C07_thread_discipline, C07_interleave_threads hold
+       in every configuration with fix15, fix16, fix18 -- in particular for the tree as it stands (D17 only
+       aliases, it never writes);
      - C07_frame_refuted_D15/D16/D18: each unrepaired configuration violates the frame statement (the witness
        histories are the replays of the defects on the original code);
-     - separation is FALSE of the code as it stands (finding D17, open): C07_separation_refuted; it is compared
-       case by case in the correspondence run (the model's `separated`/`sharing` against the implementation's
-       sharing graph); a general C07_separation_partial for fix17 = true is not proved here. *)
+     - separation: C07_separation_partial (configurations with D16, D17, D18 repaired), C07_separation_weak (the
+       tree as it stands: a domain reaches only its own cells, a state reaches only cells of states),
+       C07_separation_refuted (finding D17, open: the result of a refused trajectory step IS its input's dicts).
+   Not modelled: CPython's scheduler, the GIL and byte-code atomicity -- the interleaving theorems are about
+   interleavings of container-level Read/Write events. *)
 From Coq Require Import List Bool Arith.
-From Verif Require Import Model.Store Proofs.C07_Frame Proofs.C07_Interleave.
+From Verif Require Import Model.Store Proofs.C07_Frame Proofs.C07_Interleave Proofs.C07_Sep Proofs.C07_Threads.
 Import ListNotations.
 
 (* every write of an operation targets an operator's own cell or a cell of a value the call itself creates *)
@@ -43,15 +50,63 @@ Theorem C07_repeat : forall c h1 h2 vs, writes_fixed c = true ->
   map (snd r2) (flat_map (reach (fst r1)) vs) = map (snd r1) (flat_map (reach (fst r1)) vs).
 Proof. exact repeat_lemma. Qed.
 
-(* interleave: if every thread writes only cells private to it and reads no cell private to another thread, then
-   in ANY interleaving each thread observes exactly what it observes running alone (from any store that agrees
-   with the shared one on what the thread may look at) *)
+(* Example (non-vacuity): the hypotheses are satisfiable by the tree as it stands, on a history that really writes (operator leaves,
+   fresh states) and really aliases (D17) *)
+Theorem C07_frame_nonvacuous :
+  writes_fixed (only true true false true) = true /\
+  let r := run (only true true false true) ex_hist start in
+  (Nat.leb 5 (length (sts (fst r))) && Nat.leb 4 (length (doms (fst r))) &&
+   Nat.ltb 2 (snd r (OOp 0, 2)) && negb (separated (fst r))) = true.
+Proof. exact (conj eq_refl ex_hist_nontrivial). Qed.
+
+(* separation: independent values share no mutable cell *)
+Theorem C07_separation_partial : forall c, sep_fixed c = true -> separation_statement c.
+Proof. exact (fun c F h => separation_holds c h F). Qed.
+
+Theorem C07_separation_weak : forall c h, fix16 c = true -> fix18 c = true ->
+  weakly_separated (fst (run c h start)).
+Proof. exact weak_separation_holds. Qed.
+
+(* interleave (abstract): if every thread writes only cells private to it and reads no cell private to another
+   thread, then in ANY interleaving each thread observes exactly what it observes running alone (from any store
+   that agrees with the shared one on what the thread may look at) *)
 Theorem C07_interleave : forall (priv : nat -> loc -> Prop) s i a b,
   sched_ok priv s -> agree priv i a b -> observe i s a = observe i (mine i s) b.
 Proof. exact interleave_lemma. Qed.
 
 Theorem C07_interleave_example : sched_ok ex_priv ex_sched.
 Proof. exact ex_sched_ok. Qed.
+
+(* a log of accesses to containers that are private to no thread (the shared domain) satisfies the hypothesis of
+   C07_interleave iff nobody writes: decided on the deterministic scheduler's logs by the correspondence run *)
+Theorem C07_shared_log_discipline : forall s, no_writes s = true <-> sched_ok nobody s.
+Proof. exact no_writes_sched_ok. Qed.
+
+(* interleave (tied to the operations): the events of a well-threaded tagged history -- every thread hands to its
+   calls only shared values and values / operator objects of its own -- satisfy that discipline ... *)
+Theorem C07_thread_discipline : forall own c th m, own OMod = None -> writes_fixed c = true ->
+  TInv own m -> wt_hist own c m th -> sched_ok (tpriv own) (sched_of c m th).
+Proof. exact (fun own c th m H => hist_sched_ok own H c th m). Qed.
+
+(* ... the invariant holds when the threads start from any reachable model state whose handles are all shared ... *)
+Theorem C07_thread_start : forall own c h0, own OMod = None -> writes_fixed c = true ->
+  let m0 := fst (run c h0 start) in
+  (forall v, In v (handles m0) -> own v = None) -> TInv own m0.
+Proof. exact (fun own c h0 H => TInv_reachable own H c h0). Qed.
+
+(* ... hence every interleaving s' of the threads' event sequences (not only the operation-level one) shows each
+   thread what its own events show it when run alone *)
+Theorem C07_interleave_threads : forall own c m th s' i a b, own OMod = None -> writes_fixed c = true ->
+  TInv own m -> wt_hist own c m th ->
+  (forall j, mine j s' = mine j (sched_of c m th)) -> agree (tpriv own) i a b ->
+  observe i s' a = observe i (mine i (sched_of c m th)) b.
+Proof. exact (fun own c m th s' i a b H => thread_interleave own H c m th s' i a b). Qed.
+
+(* Example (non-vacuity): two threads on one shared domain in the configuration of the tree as it stands *)
+Theorem C07_threads_nonvacuous :
+  TInv ex_own ex_m0 /\ wt_hist ex_own ex_cfg ex_m0 ex_threads /\
+  observe 0 (mine 1 ex_s ++ mine 0 ex_s) st0 = observe 0 (mine 0 ex_s) st0.
+Proof. exact (conj ex_TInv (conj ex_wt ex_other_order)). Qed.
 
 Theorem C07_frame_refuted_D15 : ~ frame_statement (only false true true true).
 Proof. exact refuted_D15. Qed.
@@ -66,8 +121,16 @@ Print Assumptions C07_writes_private.
 Print Assumptions C07_frame.
 Print Assumptions C07_frame_reach.
 Print Assumptions C07_repeat.
+Print Assumptions C07_frame_nonvacuous.
+Print Assumptions C07_separation_partial.
+Print Assumptions C07_separation_weak.
 Print Assumptions C07_interleave.
 Print Assumptions C07_interleave_example.
+Print Assumptions C07_shared_log_discipline.
+Print Assumptions C07_thread_discipline.
+Print Assumptions C07_thread_start.
+Print Assumptions C07_interleave_threads.
+Print Assumptions C07_threads_nonvacuous.
 Print Assumptions C07_frame_refuted_D15.
 Print Assumptions C07_frame_refuted_D16.
 Print Assumptions C07_frame_refuted_D18.
